@@ -1053,3 +1053,51 @@ def origins(f, o, depth=14, _seen=None):
         else:
             out.add(rv[0])
     return out or {describe(f, o, depth)}
+
+
+def enum_switches(f, cfg, desc_rx):
+    """Switch blocks whose discriminant describes (depth 8) as matching desc_rx."""
+    out = []
+    rx = re.compile(desc_rx)
+    for b in sorted(cfg.reach):
+        t = f["bbs"][b]["t"]
+        if t[0] == "switch" and rx.search(describe(f, t[1], depth=8)):
+            out.append((b, t))
+    return out
+
+
+def arm_regions(f, cfg, t, variants=None):
+    """For a switch terminator t: {value-or-variant-name: set(blocks reachable only through that arm)}.
+    `variants`: {discriminant value: name}; a single missing variant is mapped to the otherwise target."""
+    arms = {}
+    for v, tg in t[2]:
+        arms[variants.get(v, str(v)) if variants else v] = tg
+    if variants and len(arms) < len(variants):
+        missing = [nm for nm in variants.values() if nm not in arms]
+        if len(missing) == 1:
+            arms[missing[0]] = t[3]
+    out = {}
+    for nm, tg in arms.items():
+        mine = cfg.reachable_incl(tg)
+        for n2, t2 in arms.items():
+            if n2 != nm and t2 != tg:
+                mine = mine - cfg.reachable_incl(t2)
+        out[nm] = mine
+    return out
+
+
+def ops_in_blocks(f, blocks, call_rx=None):
+    """Set of 'bin:Op' / 'un:Op' / 'call:name' tokens occurring in the given blocks."""
+    got = set()
+    for b in blocks:
+        for s in f["bbs"][b]["s"]:
+            if s[0] == "=" and s[2][0] == "bin":
+                got.add("bin:" + re.sub(r"(WithOverflow|Unchecked)$", "", s[2][1]))
+            if s[0] == "=" and s[2][0] == "un":
+                got.add("un:" + s[2][1])
+        t = f["bbs"][b]["t"]
+        if t[0] == "call" and "ptr" not in t[1]:
+            nm = callee_name(t[1])
+            if call_rx is None or re.search(call_rx, nm):
+                got.add("call:" + nm.rsplit("::", 1)[-1])
+    return got
